@@ -258,6 +258,34 @@ theorem round_no_closed (LO : LawOpen ops) {d : Daemon W} (h : InvSP needs d) (r
     rw [hww, doIdle_wh] at hw
     exact LO.idle_open _ _ _ _ hw
 
+/-- the wait class MHD_connection_update_event_loop_info gives a state (regenerated table) -/
+def TableOK (l : Local W) : Prop :=
+  (l.st ∈ writeStates → l.eli = .write) ∧ (l.st ∈ processStates → l.eli = .process) ∧ (l.st ∈ readStates → l.eli = .read)
+
+/-- handle_idle ends with MHD_connection_update_event_loop_info: a connection that stays active waits for what
+    its state calls for — in particular one with a reply to send waits for writability, not for the client -/
+structure LawTable (ops : Ops W) : Prop where
+  idle_table : ∀ id k wh l, (ops.idle id k wh l).2 = .active → TableOK (ops.idle id k wh l).1
+
+theorem round_table (LT : LawTable ops) {d : Daemon W} (h : InvSP needs d) (rdy : Ready) (poll : Bool) :
+    ∀ c ∈ (if poll then pollAllWith ops true d rdy else runFromSelectWith ops true d rdy).conns,
+      c.id ∈ ids d.newc ∨ TableOK c.loc := by
+  obtain ⟨N, V, _, _, hN, _, hconns⟩ := round_conns ops h rdy poll
+  intro c hc
+  rw [hconns] at hc
+  rcases List.mem_append.mp hc with hin | hin
+  · left
+    rcases hN with e | e
+    · rw [← e]; exact mem_ids hin
+    · rw [e] at hin; simp at hin
+  · right
+    obtain ⟨y, hy, hw, rfl⟩ := mem_fm.mp hin
+    unfold visitRes at hw ⊢
+    obtain ⟨⟨u, _, hcc, hww, _⟩, _⟩ := chLocal_endsIdle ops false y .active (rdyR rdy y.id) (rdyW rdy y.id) (rdyE rdy y.id)
+    rw [hcc, doIdle_loc]
+    rw [hww, doIdle_wh] at hw
+    exact LT.idle_table _ _ _ _ hw
+
 /-! ### histories -/
 
 /-- what can happen to a daemon from outside -/
